@@ -39,10 +39,14 @@ func (u Union) generateUnmarshalBebop(w *iohelp.ErrorWriter, settings GenerateSe
 	writeLine(w, "func (bbp *%s) UnmarshalBebop(buf []byte) (err error) {", exposedName)
 	writeLine(w, "\tat := 0")
 	writeLengthCheck(w, "4", 1)
-	writeLine(w, "\t_ = iohelp.ReadUint32Bytes(buf[at:])")
+	writeLine(w, "\tbodyLen := iohelp.ReadUint32Bytes(buf[at:])")
 	writeLine(w, "\tbuf = buf[4:]")
 	writeLine(w, "\tif len(buf) == 0 {")
 	writeLine(w, "\t\treturn iohelp.ErrUnpopulatedUnion")
+	writeLine(w, "\t}")
+	// the length prefix frames the union (discriminator byte + body): shorter input is truncated
+	writeLine(w, "\tif uint64(len(buf)) < uint64(bodyLen)+1 {")
+	writeLine(w, "\t\treturn io.ErrUnexpectedEOF")
 	writeLine(w, "\t}")
 	writeLine(w, "\tfor {")
 	writeLine(w, "\t\tswitch buf[at] {")
